@@ -166,6 +166,109 @@ func genCPUCase(r *prng.R, opcode int, native bool) cpuCase {
 	return c
 }
 
+// genExactEA: steer the effective address of an EA-group opcode exactly onto a boundary (the last byte of the address
+// space, the last byte of a bank, one past the top), so that the second byte of 16-bit data sits on the wrap
+func genExactEA(r *prng.R, opcode int) (cpuCase, bool) {
+	lo, hi := opcode&0x0F, opcode>>4
+	mode := ""
+	switch {
+	case lo == 0xD && hi%2 == 1, lo == 0xE && hi%2 == 1 && opcode != 0xBE, opcode == 0xBC, opcode == 0x3C:
+		mode = "abs,X"
+	case lo == 0x9 && hi%2 == 1, opcode == 0xBE:
+		mode = "abs,Y"
+	case lo == 0xF && hi%2 == 0:
+		mode = "long"
+	case lo == 0xF && hi%2 == 1:
+		mode = "long,X"
+	case lo == 0x7 && hi%2 == 0:
+		mode = "[dp]"
+	case lo == 0x7 && hi%2 == 1:
+		mode = "[dp],Y"
+	case lo == 0x1 && hi%2 == 1:
+		mode = "(dp),Y"
+	case lo == 0x3 && hi%2 == 1:
+		mode = "(sr,S),Y"
+	default:
+		return cpuCase{}, false
+	}
+	c := genCPUCase(r.Fork(), opcode, true)
+	c.steps = 1
+	g := &c.regs
+	g.E, g.D = 0, 0
+	g.PC = 0x8000 + uint16(r.N(0x100))
+	g.RK = []uint8{0x00, 0x80, 0x7E}[r.N(3)]
+	// clear operand bytes chosen by genCPUCase
+	pc := func(k uint16) uint32 { return uint32(g.RK)<<16 | uint32(g.PC+k) }
+	c.ovl = map[uint32]byte{pc(0): byte(opcode)}
+	target := []uint32{0xFFFFFF, 0xFFFFFE, 0x1000000, 0x1000001, 0x00FFFF, 0x7EFFFF, 0xFEFFFF, 0x010000}[r.N(8)]
+	idxW := r.N(2) == 0 // 16-bit index
+	var idx uint32
+	if idxW {
+		g.X = 0
+		idx = []uint32{0, 1, 0x0F, 0xFF, 0x100, 0xFFFF, 0x8000}[r.N(7)]
+	} else {
+		g.X = 1
+		idx = []uint32{0, 1, 0x0F, 0xFF}[r.N(4)]
+	}
+	setIdx := func(isX bool) {
+		if isX {
+			g.RX, g.RXl = uint16(idx), uint8(idx)
+		} else {
+			g.RY, g.RYl = uint16(idx), uint8(idx)
+		}
+	}
+	base := target - idx // 24-bit base the mode must produce before indexing (may exceed 2^24 - 1 only via target)
+	if target < idx {
+		return cpuCase{}, false
+	}
+	if base > 0xFFFFFF {
+		return cpuCase{}, false
+	}
+	put16 := func(a uint32, v uint16) { c.ovl[a] = byte(v); c.ovl[a&0xFF0000|uint32(uint16(a)+1)] = byte(v >> 8) }
+	switch mode {
+	case "abs,X", "abs,Y":
+		setIdx(mode == "abs,X")
+		g.RDBR = uint8(base >> 16)
+		c.ovl[pc(1)], c.ovl[pc(2)] = byte(base), byte(base>>8)
+	case "long":
+		if idx != 0 {
+			base = target & 0xFFFFFF
+		}
+		c.ovl[pc(1)], c.ovl[pc(2)], c.ovl[pc(3)] = byte(base), byte(base>>8), byte(base>>16)
+	case "long,X":
+		setIdx(true)
+		c.ovl[pc(1)], c.ovl[pc(2)], c.ovl[pc(3)] = byte(base), byte(base>>8), byte(base>>16)
+	case "[dp]", "[dp],Y":
+		if mode == "[dp]" {
+			base = target & 0xFFFFFF
+		} else {
+			setIdx(false)
+		}
+		g.RD = 0x0200
+		c.ovl[pc(1)] = 0x10
+		put16(0x000210, uint16(base))
+		c.ovl[0x000212] = byte(base >> 16)
+	case "(dp),Y":
+		setIdx(false)
+		g.RD = 0x0200
+		g.RDBR = uint8(base >> 16)
+		c.ovl[pc(1)] = 0x10
+		put16(0x000210, uint16(base))
+	case "(sr,S),Y":
+		setIdx(false)
+		g.SP = 0x01F0
+		g.RDBR = uint8(base >> 16)
+		c.ovl[pc(1)] = 0x04
+		put16(0x0001F4, uint16(base))
+	}
+	g.M = uint8(r.N(4) / 3) // mostly 16-bit accumulator: the second data byte is the interesting one
+	if g.M == 1 {
+		g.RA = uint16(g.RAh)<<8 | uint16(g.RAl)
+	}
+	c.tag = fmt.Sprintf("exactEA %02x %s", opcode, mode)
+	return c, true
+}
+
 func (c *cpuCase) byteAt(a uint32) byte {
 	if v, ok := c.ovl[a]; ok {
 		return v
@@ -190,6 +293,17 @@ func runCPU() {
 	}
 	for k := 0; k < nProg; k++ {
 		cases = append(cases, genCPUCase(r.Fork(), -1, k%3 != 0))
+	}
+	perEA := 12
+	if tier == "thorough" {
+		perEA = 300
+	}
+	for op := 0; op < 256; op++ {
+		for k := 0; k < perEA; k++ {
+			if c, ok := genExactEA(r.Fork(), op); ok {
+				cases = append(cases, c)
+			}
+		}
 	}
 	d, err := drv.Start(modelDrv)
 	var replies []string
@@ -276,12 +390,86 @@ func runCPU() {
 			}
 		}
 	}
+	// pending interrupts (NMI / IRQ latched before the Step): outside the Lean model (which has the latch idle), so Go-only
+	// oracles: no crash, lockstep of the two packages, and the cycle bookkeeping of C12 on the Step that services the interrupt
+	nInt := 600
+	if tier == "thorough" {
+		nInt = 30000
+	}
+	ri := prng.New(seed ^ 0x1a7)
+	for k := 0; k < nInt; k++ {
+		c := genCPUCase(ri.Fork(), -1, k%3 != 0)
+		c.steps = 2
+		kind := 2 + k%2 // interruptNMI, interruptIRQ
+		type res struct {
+			state   string
+			cyc     int
+			stop    bool
+			pn      string
+			all0    uint64
+			all1    uint64
+			cycReg  uint8
+		}
+		runI := func(variant string) (out []res) {
+			mem := cpuh.NewMem(c.seed)
+			for a, v := range c.ovl {
+				mem.Ovl[a] = v
+			}
+			var step func() (int, bool, string)
+			var get func() cpuh.Regs
+			if variant == "p" {
+				p := cpuh.NewPrimary(mem)
+				p.Set(c.regs)
+				p.CPU.Interrupt = byte(kind)
+				step, get = p.Step, p.Get
+			} else {
+				p := cpuh.NewAlt(mem)
+				p.Set(c.regs)
+				p.CPU.Interrupt = byte(kind)
+				step, get = p.Step, p.Get
+			}
+			for i := 0; i < c.steps; i++ {
+				before := get().AllCycles
+				cy, st, pn := step()
+				g := get()
+				out = append(out, res{g.Canon() + "|" + mem.WritesCanon(), cy, st, pn, before, g.AllCycles, g.Cycles})
+				if pn != "" {
+					break
+				}
+			}
+			return
+		}
+		po, ao := runI("p"), runI("a")
+		in := fmt.Sprintf("%s interrupt=%d", c.line("p"), kind)
+		for vi, ob := range [][]res{po, ao} {
+			vname := []string{"primary", "alt"}[vi]
+			for i, o := range ob {
+				if o.pn != "" {
+					rep.Add(report.Finding{Property: "C08", Kind: "violation", Clause: vname + ": Step servicing an interrupt panics: " + o.pn, Input: in})
+					break
+				}
+				if o.cyc < 1 || uint64(o.cyc) != uint64(o.cycReg) || o.all1 != o.all0+uint64(o.cyc) {
+					rep.Add(report.Finding{Property: "C12", Kind: "violation", Clause: fmt.Sprintf("%s: Step %d with a pending interrupt: reported %d cycles, Cycles=%d, AllCycles %d -> %d", vname, i+1, o.cyc, o.cycReg, o.all0, o.all1), Input: in})
+				}
+			}
+		}
+		for i := 0; i < len(po) && i < len(ao); i++ {
+			if po[i].state != ao[i].state || po[i].cyc != ao[i].cyc || po[i].stop != ao[i].stop {
+				rep.Add(report.Finding{Property: "C02", Kind: "violation", Clause: fmt.Sprintf("the two interpreters differ after step %d with a pending interrupt", i+1), Input: in,
+					Expected: "primary: " + po[i].state, Actual: "alt:     " + ao[i].state})
+				break
+			}
+		}
+		steps += int64(len(po))
+		rep.Count(fmt.Sprintf("interrupt cases kind=%d", kind))
+	}
 	rep.Evaluations = steps
 	rep.Distinct = int64(len(distinct))
 	rep.CountN("cases", int64(len(cases)))
 	rep.Rule = "directed: every opcode x boundary-biased registers (PC near $FFFF, DBR $00/$7E/$FF, D page aligned or not, S $01FF/$0000/$FFFF, index and accumulator values 0,1,$7F,$80,$FF,$7FFF,$8000,$FFFF, " +
 		"junk or coherent shadow copies), M/X/E/D combinations, boundary operand and pointer bytes; random: programs of 2..15 steps over a seeded 16 MiB image; both real interpreters run every case in lockstep " +
 		"(whole bus mapped) and are compared with each other, with the compiled Lean model, and with oracles for crashes / address range / cycle accounting / stop latch. " +
+		"additionally: per EA-group opcode, states steering the effective address exactly onto $FFFFFF / $FFFFFE / one past the top / bank ends (16-bit data straddling the wrap); and Go-only cases with a pending NMI or IRQ (no crash, lockstep, cycle bookkeeping of the servicing Step). " +
 		"evaluations = instructions executed per interpreter; distinct_nontrivial = distinct (opcode or program, M, X, E, D) classes"
 	rep.Emit()
 }
